@@ -78,6 +78,7 @@ type FuncContract struct {
 	File     string
 	Line     int
 	Lets     []LetDef
+	Uses     []string
 	Pure     bool // assume func: result is a function of args only (deterministic)
 	Asserts  []AnchoredAssert
 }
@@ -143,7 +144,7 @@ var directiveKW = map[string]bool{
 	"global": true, "model": true, "requires": true, "ensures": true, "assigns": true,
 	"loop": true, "inline": true, "results": true, "trusted": true, "reads": true,
 	"induction": true, "let": true, "axiom": true, "deterministic": true, "trigger": true,
-	"assert": true,
+	"assert": true, "use": true,
 }
 
 type rawDirective struct {
@@ -334,6 +335,14 @@ func parseContractFile(path, pkg string) (*ContractFile, error) {
 					}
 				default:
 					perr = fail(d, "expected invariant or modifies")
+				}
+			case "use":
+				if cur == nil {
+					perr = fail(d, "use outside func")
+					return
+				}
+				for _, f := range strings.Split(d.text, ",") {
+					cur.Uses = append(cur.Uses, strings.TrimSpace(f))
 				}
 			case "inline":
 				if cur == nil {
